@@ -1355,9 +1355,34 @@ fn check_ast_accessors(text: &str, lits: &[Lit], out: &mut Vec<Failure>) {
         if nodes.len() == lits.len() {
             for (n, l) in nodes.iter().zip(lits.iter()) {
                 let ok = match (n.kind(), &l.want) {
-                    (ast::LiteralKind::IntNumber(t), Want::Int(v, _) | Want::TimingInt(v, _, _) | Want::ImagInt(v, _)) => t.value() == Some(*v),
-                    (ast::LiteralKind::FloatNumber(t), Want::Float(v, _) | Want::TimingFloat(v, _, _) | Want::ImagFloat(v, _)) => t.value().map(|x| x.to_bits() == v.to_bits() || (x == 0.0 && *v == 0.0)).unwrap_or(false),
-                    (ast::LiteralKind::BitString(t), Want::Bits(b)) => t.value().map(|s| s.replace('_', "") == *b).unwrap_or(false),
+                    (ast::LiteralKind::IntNumber(t), Want::Int(v, _) | Want::TimingInt(v, _, _) | Want::ImagInt(v, _)) => {
+                        use oq3_syntax::ast::AstToken;
+                        let tx = t.text().to_string();
+                        let want_radix = match tx.get(..2).map(|p| p.to_ascii_lowercase()).as_deref() {
+                            Some("0x") => 16,
+                            Some("0b") => 2,
+                            Some("0o") => 8,
+                            _ => 10,
+                        };
+                        let (prefix, digits, suffix) = t.split_into_parts();
+                        // all value accessors agree, the parts tile the token, no suffix, right radix
+                        t.value() == Some(*v)
+                            && t.value_u128() == Some(*v)
+                            && t.suffix().is_none()
+                            && t.radix() as u32 == want_radix
+                            && format!("{prefix}{digits}{suffix}") == tx
+                            && prefix.len() == if want_radix == 10 { 0 } else { 2 }
+                    }
+                    (ast::LiteralKind::FloatNumber(t), Want::Float(v, _) | Want::TimingFloat(v, _, _) | Want::ImagFloat(v, _)) => {
+                        use oq3_syntax::ast::AstToken;
+                        let (ft, suffix) = t.split_into_parts();
+                        t.value().map(|x| x.to_bits() == v.to_bits() || (x == 0.0 && *v == 0.0)).unwrap_or(false)
+                            && t.suffix().is_none()
+                            && suffix.is_empty()
+                            && ft == t.text()
+                            && t.is_simple() == t.text().chars().all(|c| c.is_ascii_digit() || c == '.')
+                    }
+                    (ast::LiteralKind::BitString(t), Want::Bits(b)) => t.value().map(|s| s.replace('_', "") == *b).unwrap_or(false) && t.str().map(|s| s.replace('_', "") == *b).unwrap_or(false),
                     (ast::LiteralKind::Bool(x), Want::Bool(b)) => x == *b,
                     _ => false,
                 };
@@ -1446,7 +1471,7 @@ fn c10_case(src: &mut Src, out: &mut Vec<Failure>) -> (bool, Vec<Lit>) {
 }
 
 pub fn run_c10(ctx: &RunCtx) {
-    ctx.set_rule("literals in batches of up to 32 per program, each bare / negated / parenthesised, in expression-statement, declaration-initializer and gate-argument context: integers across all bit lengths 0..128 with edge values 2^k-1, 2^k, 2^k+1 in decimal / hex (both digit cases) / binary / octal, both prefix cases, random single underscores and leading zeros; floats in 7 spelling shapes and random doubles printed by std; bit strings up to 256 bits with underscores and both quote kinds; 6 time units and im, attached or separated by blanks; booleans. oracle: value in the graph = mathematical value (std parsing as trusted base for floats: bit equality), sign flag, unit, bit count = width; AST accessors IntNumber/FloatNumber/BitString::value agree. non-trivial = value >= 10 or spelling with _, prefix, exponent or unit; distinct by spelling");
+    ctx.set_rule("literals in batches of up to 32 per program, each bare / negated / parenthesised, in expression-statement, declaration-initializer and gate-argument context: integers across all bit lengths 0..128 with edge values 2^k-1, 2^k, 2^k+1 in decimal / hex (both digit cases) / binary / octal, both prefix cases, random single underscores and leading zeros; floats in 7 spelling shapes and random doubles printed by std; bit strings up to 256 bits with underscores and both quote kinds; 6 time units and im, attached or separated by blanks; booleans. oracle: value in the graph = mathematical value (std parsing as trusted base for floats: bit equality), sign flag, unit, bit count = width; AST accessors agree: IntNumber value/value_u128/radix/suffix/split_into_parts, FloatNumber value/suffix/split_into_parts/is_simple, BitString value/str. non-trivial = value >= 10 or spelling with _, prefix, exponent or unit; distinct by spelling");
     ctx.assume("str::parse::<f64> and u128 arithmetic of std are the trusted base; values >= 2^128 are outside this property (C03)");
     let n = ctx.pick(400_000u64, 6_000_000u64);
     ctx.random("literal-batch", n, 400, |src| {
